@@ -753,11 +753,12 @@ Section Sim.
     destruct (if op_loads o then load B0 h f mU else (B0, mU)) as [B1 m1].
     destruct (if op_loads o then load U0 h f mU else (U0, mU)) as [U1 m1'].
     destruct Hl as (<- & I1 & Hm1 & D1 & Ho1 & F1 & F1'). rewrite F1, F1'.
-    destruct (get_at p m1) as [t|e] eqn:Eg; [|auto].
-    destruct (is_read o); [auto|].
+    set (attached := is_read o || survives p mU m1).
+    destruct (if attached then get_at p m1 else get_at p mU) as [t|e] eqn:Eg; [|auto].
+    destruct (is_read o) eqn:Er; [auto|].
     destruct (sync_apply merge o t) as [[t' r]|e] eqn:Ea.
-    - assert (Hobj' : is_obj (set_at p t' m1)).
-      { apply set_at_obj; [exact Ho1|]. intros ->. simpl in Eg. inversion Eg; subst t.
+    - assert (Hobj' : is_obj (if attached then set_at p t' m1 else m1)).
+      { destruct attached; [|exact Ho1]. apply set_at_obj; [exact Ho1|]. intros ->. simpl in Eg. inversion Eg; subst t.
         eapply apply_obj; eauto. }
       destruct (save_sim B1 U1 h f m1 _ I1 F1 F1' Hm1 Hobj') as (I2 & _ & D2 & A1 & A2 & A3 & A4).
       unfold raised. rewrite A1, A2, A3, A4.
@@ -921,9 +922,10 @@ Lemma doc_faithful_typed_refuted_w :
 Proof. vm_compute. repeat split. Qed.
 
 (* ================= the signac part: the document handle follows the job ================= *)
-Lemma nmem_add_dir : forall ds f, f <> 0 -> nmem f (add_dir ds f) = true.
+Lemma nmem_add_dir : forall ds f, f <> 0 -> f <> 10 -> nmem f (add_dir ds f) = true.
 Proof.
-  intros ds f H0. unfold add_dir. assert (E0 : N.eqb f 0 = false) by (apply N.eqb_neq; exact H0). rewrite E0. simpl.
+  intros ds f H0 H10. unfold add_dir. assert (E0 : N.eqb f 0 = false) by (apply N.eqb_neq; exact H0).
+  assert (E1 : N.eqb f 10 = false) by (apply N.eqb_neq; exact H10). rewrite E0, E1. simpl.
   destruct (nmem f ds) eqn:E; [exact E|]. unfold nmem. rewrite existsb_app. simpl. rewrite N.eqb_refl. apply orb_true_r.
 Qed.
 
@@ -934,7 +936,7 @@ Section Follow.
   (* after a successful re-key the next document access of that Job object goes through a NEW collection
      bound to the file of the NEW id, in a directory that exists *)
   Lemma follow_rekey : forall js j f f' d,
-    nlookup j (jobs js) = Some (f, d) -> f <> f' -> nmem f (dirs js) = true -> nmem f' (dirs js) = false -> f' <> 0 ->
+    nlookup j (jobs js) = Some (f, d) -> f <> f' -> nmem f (dirs js) = true -> nmem f' (dirs js) = false -> f' <> 0 -> f' <> 10 ->
     let js1 := fst (jstep js (JRekey j f')) in
     snd (jstep js (JRekey j f')) = Ok JNull /\
     nlookup j (jobs js1) = Some (f', None) /\
@@ -943,7 +945,7 @@ Section Follow.
     exists js2 h, resolve_doc frepr merge (fun k : N => k) js1 j = Some (js2, h) /\
                   nlookup h (mems (core js2)) = Some (f', empty_obj) /\ nmem f' (dirs js2) = true.
   Proof.
-    intros js j f f' d Hj Hne Hd Hd' H0. cbv zeta. unfold Doc.jstep. rewrite Hj. cbv beta zeta.
+    intros js j f f' d Hj Hne Hd Hd' H0 H10. cbv zeta. unfold Doc.jstep. rewrite Hj. cbv beta zeta.
     rewrite N.sub_diag, N.add_0_r.
     assert (E : N.eqb f f' = false) by (apply N.eqb_neq; exact Hne). rewrite E, Hd, Hd'. simpl.
     split; [reflexivity|]. split; [apply nlookup_nset_same|].
@@ -957,7 +959,34 @@ Section Follow.
       - rewrite nlookup_nremove_other by auto. apply nlookup_nremove_same. }
     unfold resolve_doc. simpl. rewrite nlookup_nset_same. eexists. eexists. split; [reflexivity|]. simpl.
     split; [apply nlookup_nset_same|].
-    apply nmem_add_dir. exact H0.
+    apply nmem_add_dir; assumption.
+  Qed.
+
+  (* after a move to the other project the next document access goes through a NEW collection bound to the file
+     in the destination project, which holds what the source file held *)
+  Lemma follow_move : forall js j f d,
+    nlookup j (jobs js) = Some (f, d) -> nmem f (dirs js) = true -> nmem (f + 10) (dirs js) = false -> f <> 0 ->
+    let js1 := fst (jstep js (JMove j)) in
+    snd (jstep js (JMove j)) = Ok JNull /\
+    nlookup j (jobs js1) = Some (f + 10, None) /\
+    nlookup (f + 10) (files (core js1)) = nlookup f (files (core js)) /\
+    nlookup f (files (core js1)) = None /\
+    exists js2 h, resolve_doc frepr merge (fun k : N => k) js1 j = Some (js2, h) /\
+                  nlookup h (mems (core js2)) = Some (f + 10, empty_obj) /\ nmem (f + 10) (dirs js2) = true.
+  Proof.
+    intros js j f d Hj Hd Hd' Hf0. cbv zeta. unfold Doc.jstep. rewrite Hj. cbv beta zeta. rewrite Hd, Hd'. simpl.
+    assert (Hne : f <> f + 10) by lia.
+    split; [reflexivity|]. split; [apply nlookup_nset_same|].
+    split.
+    { unfold move_key. destruct (nlookup f (files (core js))) as [v|] eqn:Ev; simpl.
+      - apply nlookup_nset_same.
+      - apply nlookup_nremove_same. }
+    split.
+    { unfold move_key. destruct (nlookup f (files (core js))) as [v|] eqn:Ev; simpl.
+      - rewrite nlookup_nset_other by lia. apply nlookup_nremove_same.
+      - rewrite nlookup_nremove_other by lia. apply nlookup_nremove_same. }
+    unfold resolve_doc. simpl. rewrite nlookup_nset_same. eexists. eexists. split; [reflexivity|]. simpl.
+    split; [apply nlookup_nset_same|]. apply nmem_add_dir; lia.
   Qed.
 
   (* after remove() the next document access re-creates the job and starts from an empty document *)
@@ -1050,6 +1079,14 @@ Proof.
   destruct e as [k|i]; destruct d; try reflexivity.
   - destruct (alookup k kvs); [apply IH|reflexivity].
   - destruct (nth_error l (N.to_nat i)); [apply IH|reflexivity].
+Qed.
+
+Lemma survives_refl : forall p d t, get_at p d = Ok t -> survives p d d = true.
+Proof.
+  induction p as [|e p IH]; intros d t H; simpl; [reflexivity|].
+  destruct e as [k|i]; destruct d; simpl in *; try discriminate.
+  - destruct (alookup k kvs) as [x|] eqn:E; [|discriminate]. rewrite N.eqb_refl. simpl. eapply IH; eauto.
+  - destruct (nth_error l (N.to_nat i)) as [x|] eqn:E; [|discriminate]. rewrite N.eqb_refl. simpl. eapply IH; eauto.
 Qed.
 
 Section Unbuf.
@@ -1151,7 +1188,7 @@ Section Unbuf.
     destruct Hl as (st1 & -> & Hu1 & F1 & K1 & M1).
     assert (Hq1 : ferr_of st1 = false) by (unfold ferr_of; rewrite K1; exact Hq).
     assert (Hq1' : oerr_of st1 = false) by (unfold oerr_of; rewrite K1; exact Hq').
-    rewrite Hq1, Eg.
+    rewrite Hq1. rewrite (survives_refl p d t Eg), orb_true_r. cbv iota. rewrite Eg.
     destruct (is_read o) eqn:Er.
     - destruct o; try discriminate. simpl. split; [reflexivity|]. split; [exact Hu1|]. split; [intros; rewrite F1; reflexivity|exact M1].
     - unfold sync_apply. destruct (apply_with merge o t) as [[t' r]|x] eqn:Ea.
